@@ -127,14 +127,14 @@ def fam_lanes_wide(rng, sid0, n):
         ncand = [255, 256, 257, 258, 129, 130][i % 6]
         names = ["+P%03d" % k for k in range(ncand)]
         others = ["Z", "+Q1"]
-        order = rng.choice(["cand-first", "cand-last", "cand-mid"])
+        order = ["cand-first", "cand-mid", "cand-last"][(i // 6) % 3]
         table = names + others if order == "cand-first" else others + names if order == "cand-last" else others[:1] + names + others[1:]
         cmds = [Cmd(nm, hx=True, hr=rng.random() < 0.1) for nm in table]
         half = (len(table) + 3) // 4 + rng.choice([0, 1, 8])
         sc = Scenario(sid0 + i, cmds, qcap=1, bufsize=2 * half, grain="compact", meta={"family": "fam_lanes_wide"})
         lines = [b"AT+P\n", b"AT+P0\n", b"AT+P00\n", b"AT+P000\n", ("AT+P%03d\n" % (ncand - 1)).encode(), b"AT+P25\n", b"AT+P=1\n", b"AT+\n", b"ATZ\n", b"AT+Q\n"]
         rng.shuffle(lines)
-        line_block(sc, lines[:6], 60000)
+        line_block(sc, [b"AT+P\n", b"AT+P=1\r\n"] + lines[:4], 60000)
         out.append(sig(sc, ncand, order))
     return out
 
